@@ -24,7 +24,7 @@ pub struct SigCase {
     pub muts: Vec<SigMut>,
 }
 
-fn sig_strategy() -> impl Strategy<Value = SigCase> {
+pub fn sig_strategy() -> impl Strategy<Value = SigCase> {
     let base = prop_oneof![
         2 => sigs::honest_spec(64).prop_map(Base::Honest),
         5 => sigs::forge_spec(64, sigs::zval()).prop_map(Base::Forge),
